@@ -101,7 +101,9 @@ JudgeCall(c, dev, b, focus) ==
       F(p) == focus = p
       nw == Cardinality({k \in 1..Len(ops) : ops[k].k = "w"})
       R(v, bb) == [v |-> v, board |-> bb] IN
-  IF c.raised /\ F("C05") /\ cl.m # "connect" THEN R("fault.public_method_raises", b)
+  IF c.raised /\ F("C15") /\ cl.m = "connect" THEN
+       R(IF Unsupported(dev) THEN "connect.unsupported_device_returns_false_with_error" ELSE "skip", b)
+  ELSE IF c.raised /\ F("C05") /\ cl.m # "connect" THEN R("fault.public_method_raises", b)
   ELSE IF c.raised THEN R(IF F("C04") /\ c.dead_before /\ cl.m \notin Special THEN "latch.dead_call_raises" ELSE "skip", b)
   ELSE IF F("C04") /\ c.err_before /\ ~c.err_same THEN R("latch.recorded_error_replaced", b)
   ELSE IF cl.m = "connect" THEN
@@ -126,8 +128,11 @@ JudgeCall(c, dev, b, focus) ==
   ELSE IF F("C15") THEN R("ok", b)
   ELSE IF F("C16") THEN      \* the statement is about the board after calls that succeeded, whatever the object did to get there
        LET b2 == OpsBoard(ops, 1, b)
-           okc == ~c.err_set /\ (FailSet(cl.m) = {Void} \/ RetOf(c) \notin FailSet(cl.m)) IN
-       IF okc /\ BoardClause(cl, c, b2, <<>>) # "ok" THEN R(BoardClause(cl, c, b2, <<>>), b2) ELSE R("ok", b2)
+           okc == ~c.err_set /\ (FailSet(cl.m) = {Void} \/ RetOf(c) \notin FailSet(cl.m))
+           \* the board answered every request of this call as documented (no injected fault, no timeout)
+           clean == \A k \in 1..Len(ops) : ~ops[k].raised /\ (ops[k].k = "r" => ops[k].kind = "conf") IN
+       IF clean /\ c.err_set THEN R("board.round_trip_fails_against_conforming_board", b2)
+       ELSE IF okc /\ BoardClause(cl, c, b2, <<>>) # "ok" THEN R(BoardClause(cl, c, b2, <<>>), b2) ELSE R("ok", b2)
   ELSE LET w == Walk(cl, Program(cl), ops, b, <<>>, FALSE, focus) IN
        IF w.v # "ok" THEN R(w.v, w.board)
        ELSE IF w.failed THEN
